@@ -108,6 +108,12 @@ func (s CallableSignalSchema[StepData, InputType]) Call(ctx context.Context, ste
 		return InvalidInputError{err}
 	}
 
-	s.handler(ctx, stepData.(StepData), input.(InputType))
+	// A step without an initializer has nil step data; for an interface StepData (such as any) a type
+	// assertion on nil panics, although nil is a value of that type.
+	var typedStepData StepData
+	if stepData != nil {
+		typedStepData = stepData.(StepData)
+	}
+	s.handler(ctx, typedStepData, input.(InputType))
 	return nil
 }
